@@ -176,7 +176,7 @@ def run(prog: Program, rep: Report, tier: str) -> None:
     memo_rule(prog, rep)
     from .c02 import config_sweep
     config_sweep(prog, rep, "R3.7")
-    state_sweep(prog, rep)
+    state_sweep(prog, rep, funcs)
 
 
 def _breeze_seq_ok(rest: Tuple[Optional[str], ...]) -> bool:
@@ -257,7 +257,7 @@ def _argument_pure(fi: Any) -> bool:
     return True
 
 
-def state_sweep(prog: Program, rep: Report) -> None:
+def state_sweep(prog: Program, rep: Report, visited: Optional[Set[str]] = None) -> None:
     """R3.3: write-effect sweep for anything that could carry state between operations or instances."""
     n = 0
     for modname in STATE_MODULES:
@@ -298,6 +298,11 @@ def state_sweep(prog: Program, rep: Report) -> None:
                                         findings.append((sub.lineno, f"{fi.qualname} stores self.{sub.attr}: API instances may keep only connection state set in __init__/connect/disconnect"))
                             elif isinstance(base, ast.Name) and base.id in ("new_enum",):
                                 pass  # enum member construction in __new__
+                            elif visited is not None and fi.key not in visited:
+                                # a function no analysed operation reaches (an import-time decorator, a tool): what it
+                                # stores is not state between operations; import-time effects are either modelled by the
+                                # engine or stop the analysis (exit 2)
+                                pass
                             else:
                                 findings.append((sub.lineno, f"store to `{ast.unparse(sub)}` (an object other than self): shared between operations/instances"))
                         elif isinstance(sub, ast.Subscript):
